@@ -21,7 +21,8 @@ import LbzVerif.Props.C09.Sched
 
 namespace LbzVerif.Props.C09.File
 open LbzVerif LbzVerif.Model.SchedD LbzVerif.Model.Expand
-open LbzVerif.Lemmas.ExpandSched (cfgOf render seqRun_expandRest)
+open LbzVerif.Lemmas.ExpandSched (cfgOf render seqRun_expandRest fileA cfgA traceA cfgB traceB
+  runA_terminates runB_terminates render_fileA)
 
 /-- **The sequential reference of the instance is `expandRest`**: `expandRest` answers
     `ok y` iff `seqRun` of the instance succeeds and `y` is its sink records, rendered. -/
@@ -85,28 +86,6 @@ theorem sched_output_is_expandFile (x : List UInt8) (hh : Lemmas.Copy.hasHeader 
   rw [h] at h2
   exact h2
 
-/-- the 37 bytes `bzip2 -9` makes of the one-byte file "a" -/
-def fileA : List UInt8 :=
-  [0x42, 0x5a, 0x68, 0x39, 0x31, 0x41, 0x59, 0x26, 0x53, 0x59, 0x19, 0x93, 0x9b, 0x6b, 0x00, 0x00,
-   0x00, 0x01, 0x00, 0x20, 0x00, 0x20, 0x00, 0x21, 0x18, 0x46, 0x82, 0xee, 0x48, 0xa7, 0x0a, 0x12,
-   0x03, 0x32, 0x73, 0x6d, 0x60]
-
-/-- two workers, the whole input in one input block -/
-def cfgA : Cfg := cfgOf 9 (fileA.drop 4) 2 1000 2 2 false []
-
-/-- a complete run on `fileA`: the block's data starts at bit 80 -/
-def traceA : List Label :=
-  [.rTake, .rBlock, .rEof, .parseStart, .parseEnd,
-   .retrStart { curr := 80, base := 80, ub := none, corrupt := false },
-   .scanStart 0, .scanEnd 80 0,
-   .retrEnd { curr := 80, base := 80, ub := none, corrupt := false } (some 0),
-   .parseStart, .parseEnd,
-   .retrPost { base := 80, idx := 0, left := 1, ok := true, corrupt := false },
-   .emitStart { base := 80, idx := 0, left := 1, ok := true, corrupt := false },
-   .emitEnd { base := 80, idx := 0, left := 1, ok := true, corrupt := false },
-   .reorder { base := 80, idx := 0, st := .ok, corrupt := false },
-   .wDone]
-
 /-- Non-vacuity of `sched_output_is_expandFile`: on the real one-block file `fileA` the run
     `traceA` terminates (kernel-evaluated: parser, retriever, decoder, emitter and CRC of the
     model on these bytes), it handed the record `(80, 0)` to the sink, and the theorem turns
@@ -115,9 +94,8 @@ example : ∃ s, Reach (cfgOf (Lemmas.Copy.headerLevel fileA) (fileA.drop 4) 2 1
     terminated (cfgOf (Lemmas.Copy.headerLevel fileA) (fileA.drop 4) 2 1000 2 2 false []) s = true ∧
     s.written = [(80, 0)] ∧ expandFile fileA = .ok [97] := by
   have hl : Lemmas.Copy.headerLevel fileA = 9 := by decide
-  have h : (run cfgA (init cfgA) traceA).any
-      (fun s => terminated cfgA s && decide (s.written = [(80, 0)])) = true := by decide +kernel
-  have hren : render 9 (fileA.drop 4) (80, 0) = [97] := by decide +kernel
+  have h := runA_terminates
+  have hren := render_fileA
   cases hr : run cfgA (init cfgA) traceA with
   | none => rw [hr] at h; cases h
   | some s =>
@@ -226,34 +204,13 @@ theorem sched_output_indep (x : List UInt8) (hh : Lemmas.Copy.hasHeader x = true
   rw [a] at b
   injection b
 
-/-- one worker, input blocks of 64 bits (five of them), three slots, `ultra`, a spurious
-    scanner candidate -/
-def cfgB : Cfg := cfgOf 9 (fileA.drop 4) 1 64 3 3 true [100]
-
-/-- a complete run of `cfgB` on `fileA`: the parser and the retriever cross input-block
-    boundaries (`parse()` / `retrieve()` return MORE) -/
-def traceB : List Label :=
-  [.rTake, .rBlock, .rTake, .rBlock, .rTake, .rBlock, .parseStart, .parseEnd, .rTake, .rBlock,
-   .parseStart, .parseEnd,
-   .retrStart { curr := 80, base := 80, ub := none, corrupt := false },
-   .retrEnd { curr := 80, base := 80, ub := none, corrupt := false } (some 1),
-   .rTake, .rBlock, .rEof,
-   .retrStart { curr := 128, base := 80, ub := none, corrupt := false },
-   .retrEnd { curr := 128, base := 80, ub := none, corrupt := false } (some 2),
-   .retrPost { base := 80, idx := 0, left := 1, ok := true, corrupt := false },
-   .emitStart { base := 80, idx := 0, left := 1, ok := true, corrupt := false },
-   .emitEnd { base := 80, idx := 0, left := 1, ok := true, corrupt := false },
-   .reorder { base := 80, idx := 0, st := .ok, corrupt := false },
-   .wDone, .parseStart, .parseEnd, .parseStart, .parseEnd, .parseStart, .parseEnd]
-
 /-- Non-vacuity of `sched_output_indep`: two terminated runs on `fileA` under different
-    configurations (`cfgA` with `traceA`, `cfgB` with `traceB`). -/
+    configurations (`cfgA`: two workers, one input block, run `traceA`; `cfgB`: one worker, five
+    input blocks of 64 bits, `ultra`, a spurious scanner candidate, run `traceB`). -/
 example : ∃ s1 s2, Reach cfgA s1 ∧ terminated cfgA s1 = true ∧
     Reach cfgB s2 ∧ terminated cfgB s2 = true := by
-  have h1 : (run cfgA (init cfgA) traceA).any (fun s => terminated cfgA s) = true := by
-    decide +kernel
-  have h2 : (run cfgB (init cfgB) traceB).any (fun s => terminated cfgB s) = true := by
-    decide +kernel
+  have h1 := runA_terminates
+  have h2 := runB_terminates
   cases hr1 : run cfgA (init cfgA) traceA with
   | none => rw [hr1] at h1; cases h1
   | some s1 =>
@@ -262,6 +219,7 @@ example : ∃ s1 s2, Reach cfgA s1 ∧ terminated cfgA s1 = true ∧
     | some s2 =>
       rw [hr1] at h1
       rw [hr2] at h2
-      exact ⟨s1, s2, reach_run _ Reach.init hr1, h1, reach_run _ Reach.init hr2, h2⟩
+      simp only [Option.any_some, Bool.and_eq_true, decide_eq_true_eq] at h1 h2
+      exact ⟨s1, s2, reach_run _ Reach.init hr1, h1.1, reach_run _ Reach.init hr2, h2.1⟩
 
 end LbzVerif.Props.C09.File
